@@ -143,6 +143,30 @@ def oracle(case, out):
         prev_mem = mem; prev_dur = dur
     return sorted(found.items())
 
+# ------------------------------------------------------------------ Raft-thread steps placed inside the IO thread's window
+def gated_cases(r, n):
+    """probe `resetrace`: the store's flush() is gated so that a second AppendEntries with prev_log_index = 0 (a duplicated
+    or retried first request) runs its reset while the IO thread is between persist_entries() and the advance of
+    durable_index for the first one; plus the same sequences without a gate under random yields/sleeps."""
+    E = lambda i, t: [i, t, 100 * t + i]
+    cases = []
+    for k in range(n):
+        t = r.range(1, 4); k1 = r.range(1, 4); k2 = r.range(1, 5)
+        first = [E(i, t) for i in range(1, k1 + 1)]; second = [E(i, t) for i in range(1, k2 + 1)]
+        more = [E(k2 + 1 + j, t) for j in range(r.range(1, 3))]
+        if k % 3 == 0:
+            steps = [[0, 0, 0, first], [1, r.range(0, 6)], [0, 0, 0, second], [2, r.range(1, 3)], [0, k2, t, more], [3]]
+        else:
+            steps = [[4], [0, 0, 0, first], [5], [6, 0, 0, second], [7], [8], [0, k2, t, more], [3]]
+        cases.append([r.choice([1, 1000]), steps])
+    return cases
+
+def gated_oracle(case, out):
+    mem, disk, dur, journal = out
+    if mem != disk:
+        return ('reset-races-with-inflight-fsync', 'after flush() returned the log holds indexes %s but the store holds %s (durable_index()=%d); store journal: %s' % (mem, disk, dur, ' | '.join(journal)))
+    return None
+
 def run_cases(cases):
     outs = core.probe_parallel(PROBE, cases, jobs=8)
     return outs
@@ -183,6 +207,19 @@ def check(run):
                 broken.append(('correspondence', 'DE.LogCrash (crash_probe) vs BufferedRaftLog + IO thread (probe logcrash)',
                                '%d disagreements; first on %s -> impl %s' % (len(m2), json.dumps(c), json.dumps(o))))
         run.cov['disagreements'] = len(mism)
+        gc = gated_cases(run.rng('gated'), 240 if thorough else 60)
+        gouts = core.probe_parallel('resetrace', gc, jobs=8)
+        gok = 0
+        for c, o in zip(gc, gouts):
+            if isinstance(o, str):
+                broken.append(('harness', 'resetrace probe error', (json.dumps(c) + ' -> ' + o)[:400])); continue
+            gok += 1
+            v = gated_oracle(c, o)
+            if v:
+                dist['violating:' + v[0]] = dist.get('violating:' + v[0], 0) + 1
+                violations.append({'class': v[0], 'probe': 'resetrace', 'input': c, 'output': o, 'why': v[1]})
+        dist['gated-reset-inside-fsync-window'] = sum(1 for c in gc if c[1][0] == [4]); dist['ungated-reset-sequences'] = len(gc) - dist['gated-reset-inside-fsync-window']
+        run.cov['gated_interleavings'] = gok
         run.add_cases(len(pairs), len({json.dumps(c) for c, _ in pairs}), [{'case': pairs[j][0], 'impl': pairs[j][1]} for j in (0, len(pairs) - 1)], dist,
                       'seeded: Raft-shaped sequences of 2-10 calls (append, filter with overlap/conflict/mismatching prev/from-scratch, purge, reset, flush, close) on the in-memory two-layer store, FileStorageEngine and RocksDBStorageEngine; a crash point after every call; directed boundary cases per engine; distinct = distinct cases')
     except Broken as b:
@@ -194,6 +231,10 @@ def replay(path):
     if r.get('kind') != 'counterexample':
         print('broken obligation:', [b['name'] for b in r.get('broken', [])]); return 1
     core.harness_build()
+    if r.get('probe') == 'resetrace':
+        out = core.probe('resetrace', [r['input']])[0]
+        print('implementation output:', json.dumps(out)); v = gated_oracle(r['input'], out)
+        print('VIOLATES (%s): %s' % v if v else 'ok'); return 1 if v else 0
     out = core.probe(PROBE, [r['input']])[0]
     print('implementation output:', json.dumps(out)); v = oracle(r['input'], out)
     for cls, why in v: print('VIOLATES (%s): %s' % (cls, why))
